@@ -29,7 +29,9 @@ package refreshable
 //@   ensures new-text-only-from-a-complete-download: err == nil ==> len(text) > 0 && replaces == old(replaces) + 1 && !copyFailed
 //@   ensures any-failure-before-the-replace-leaves-the-cache-file: replaceCalls == old(replaceCalls) ==> err != nil && replaces == old(replaces)
 //@   ensures a-failed-transfer-is-never-installed: copyFailed ==> replaceCalls == old(replaceCalls)
-//@   atcall withDeferredTmpCleanup assert the-replace-follows-a-complete-download: err == nil ==> resp != nil && resp.StatusCode == 200 && !copyFailed && sbLen[b] > 0
+//@   atcall withDeferredTmpCleanup assert the-replace-follows-status-ok: err == nil ==> resp != nil && resp.StatusCode == 200
+//@   atcall withDeferredTmpCleanup assert the-replace-follows-a-complete-transfer: err == nil ==> !copyFailed
+//@   atcall withDeferredTmpCleanup assert the-replace-follows-a-non-empty-body: err == nil ==> sbLen[b] > 0
 
 //@ func (*Refreshable).refreshFromFile
 //@   modifies sbLen, copyFailed
